@@ -13,6 +13,6 @@ PROP = "C09"
 
 
 def run(tier, seed):
-    return progcheck.run(PROP, tier, seed, "oracle_c09", ["rowlevel", "general", "join", "scen_join_hidden", "window", "scen_subq_hidden", "agg", "rowlevel"], 250, 6000, also=("C01",),
+    return progcheck.run(PROP, tier, seed, "oracle_c09", ["rowlevel", "general", "join", "scen_join_hidden", "scen_selfjoin_agg", "window", "scen_subq_hidden", "agg", "rowlevel"], 250, 6000, also=("C01",),
                          assumptions=["that the backends read the data of exactly the resolved UUID is checked on the real code by the probe-column oracle; "
                                       "the theorems are about resolution and scope"])
